@@ -81,6 +81,22 @@ def check_program(art, work, b, prog):
     except dartkt.ParseError as e:
         return ([], [("parse", "cannot parse generated %s: %s" % (b, e))], src), r
     cases_, fails = [], []
+    # the runtime's own exported functions the Dart glue declares: diplomat_alloc(usize, usize) -> *mut u8, diplomat_free(ptr, usize, usize)
+    if b == "dart":
+        for sym, (wps, wret) in (("diplomat_alloc", ([("usize",), ("usize",)], ("ptr",))), ("diplomat_free", ([("ptr",), ("usize",), ("usize",)], ("void",)))):
+            try:
+                sig = parsed.signature(sym)
+            except dartkt.ParseError as e:
+                fails.append(("sig-parse", "%s: declaration of %s: %s" % (b, sym, e)))
+                continue
+            if sig is None:
+                continue
+            cases_.append(([b, "runtime-fn", sym], False, "runtime-function"))
+            gps, gret = sig
+            if len(gps) != len(wps) or not all(abi.compatible(w, g, b) for w, g in zip(wps, gps)) or not abi.compatible(wret, gret, b):
+                fails.append(("runtime-fn", "%s: %s is declared (%s) -> %s, the runtime exports (%s) -> %s" % (
+                    b, sym, ", ".join(abi.show(abi.normalize(x)) for x in gps), abi.show(abi.normalize(gret)),
+                    ", ".join(abi.show(abi.normalize(x)) for x in wps), abi.show(abi.normalize(wret)))))
     for mod in prog["modules"]:
         for it in mod["items"]:
             if it["kind"] == "struct" and it["fields"]:
